@@ -87,14 +87,14 @@ def same_prefix(ctx, rule):
     ctx.check(sl == ["arg1[0][RangeToInclusive{end:some(var:Option<usize>)}]"], rule, h.path, "prefix-of-first", "the helper returns a leading slice of the first (shortest) list", detail=str(sl))
     cmp_ = [q.shape(h.expr_of_call(t)) for bi, t in h.calls() if q.nice(t.get("callee")) in ("PartialEq::ne", "PartialEq::eq")]
     ENUM = "some(Iterator::next(var:Enumerate<Iter<&str>>))"
-    ok = len(cmp_) == 1 and cmp_[0] == "PartialEq::ne(slice::get(some(Iterator::next(var:Iter<Cow<[&str]>>)),%s.0),Option::Some{0:%s.1})" % (ENUM, ENUM)
+    ok = len(cmp_) == 1 and cmp_[0] == q.eqs("ne", "slice::get(some(Iterator::next(var:Iter<Cow<[&str]>>)),%s.0)" % ENUM, "Option::Some{0:%s.1}" % ENUM)
     ctx.check(ok, rule, h.path, "componentwise", "components are compared position by position with the non-panicking get", detail=str(cmp_)[:300])
     # the scan stops at the first mismatch (a *prefix*): the mismatch edge leaves the component loop
     inner = [bi for bi, t in q.calls_to(h, "Iterator::next") if "Enumerate<Iter<&str>>" in q.shape(q.arg_expr(h, t, 0))]
     outer = [bi for bi, t in q.calls_to(h, "Iterator::next") if "Iter<Cow<[&str]>>" in q.shape(q.arg_expr(h, t, 0))]
     for d in range(len(h.blocks)):
         t = h.blocks[d]["term"]
-        if t["k"] == "switch" and not h.blocks[d]["cleanup"] and q.shape(h.expr_of_operand(t["discr"])).startswith("PartialEq::ne(slice::get("):
+        if t["k"] == "switch" and not h.blocks[d]["cleanup"] and q.shape(h.expr_of_operand(t["discr"])).startswith("PartialEq::ne(") and "slice::get(" in q.shape(h.expr_of_operand(t["discr"])):
             mism = t["otherwise"]
             okb = len(inner) == 1 and len(outer) == 1 and not h.reaches(mism, inner[0], avoid=[outer[0]]) and mism != inner[0]
             ctx.check(okb, rule, h.path, "stop-at-first-mismatch", "the comparison of one list stops at the first differing component (later agreements do not extend the prefix)", ctx.site(h, d))
